@@ -39,3 +39,51 @@ Example C01_whatwg_cross_check :
   length cases = 33%nat.
 Proof. split; [exact whatwg_cross_check|reflexivity]. Qed.
 Print Assumptions C01_whatwg_cross_check.
+
+(* Stage B: the refinement THEOREM for the text states (TokIR/WhatwgRefine.v generic part, Inst/InstWhatwgRefine.v on the
+   regenerated table).  Simulation relation by state: state correspondence, the live variables (temporary buffer, the end
+   tag under construction with "appropriate end tag", last start tag), and the LOGICAL INPUT of the machine - the reconsumed
+   character followed by the unread queue with CR LF / CR normalised as the interpreter does it inside get_char with its
+   ignore_lf flag - equal to the specification's preprocessed remaining input.  One interpreter step = one to three
+   specification steps; end() = the specification's end-of-file clauses; discharged for 28 states by symbolic execution of
+   both machines on a machine with all fields variables and a character that is a variable, case analysis following the tests
+   of the arm.  Observation ([flat_i] / [flat_s]): parse errors dropped, character tokens compared character by character
+   (U+0000 as its own token, as html5ever delivers it), every other token exactly.
+   _partial - covered: Data, PLAINTEXT, RCDATA, RAWTEXT, script data and its 17 escape / less-than-sign / end-tag-open /
+   end-tag-name states.  NOT covered yet (a run that reaches one of them is outside the theorem: the visiting hypothesis
+   fails): tag open, end tag open, tag name, the attribute states, self-closing start tag (stage C); comments, markup
+   declaration open, DOCTYPE, CDATA sections (stage D); character references (stage E).  Sink: no Script answer, one feed call. *)
+From HV Require Import TokIR.WhatwgRefine HtmlSer.SerLex CharRef.CrInterpInst Inst.InstWhatwgRefine.
+
+Theorem C01_refines_whatwg_text_states_partial :
+  forall simd ent c1 sk env, e_script env = None -> (forall n, lookup_resp n (sk_resp sk) <> Some RespScript) ->
+  forall s0 w last text fuel m2 m3,
+  covered s0 = true -> wstate_of_start s0 = Some w ->
+  let m1 := RecordUpdate.RecordSet.set mq (fun q => q ++ text) (mkmach (init_cfg s0 last false) ([] : list N) [] 0%N) in
+  (forall n m', iter html_flavour html_table simd ent c1 sk n m1 = Some m' -> cref (mc m') = None /\ covered (st (mc m')) = true) ->
+  feed [] fq_next fq_peek (@app N) (fun q => q) fq_run1 html_flavour true html_table simd ent c1 sk fuel m1 = (m2, SSuspend) ->
+  tok_end [] fq_next fq_peek (@app N) (fun q => q) fq_run1 html_flavour true html_table simd ent c1 sk fuel m2 = (m3, SSuspend) ->
+  drive_flat html_flavour true html_table simd ent c1 sk fuel [] [text] (mkmach (init_cfg s0 last false) [] [] 0%N) [] = (m3, [SSuspend; SSuspend]) /\
+  exists fs cfF, wrun fs env (winit w last) (preprocess text) = Some cfF /\ flat_i (mout m3) = flat_s (wout cfF).
+Proof. exact html_refines_whatwg_partial. Qed.
+Print Assumptions C01_refines_whatwg_text_states_partial.
+
+Theorem C01_covered_states : forallb covered covered_states = true /\ length covered_states = 28%nat.
+Proof. exact covered_states_ok. Qed.
+Print Assumptions C01_covered_states.
+
+(* non-vacuity (a test, by computation): a script-data text walking through the escaped and double escaped states, dashes,
+   less-than signs, a non-appropriate end tag, CR LF, CR, U+0000: every machine of the run is in a covered state - the
+   hypothesis of the theorem holds - and the 54 observable items agree *)
+Example C01_refine_example :
+  forallb (fun n => match iter html_flavour html_table html_simd0 html_ent html_c1 nosink n rex_m1 with
+                    | Some m' => match cref (mc m') with None => covered (st (mc m')) | Some _ => false end
+                    | None => true end) (seq 0 80) = true /\
+  iter html_flavour html_table html_simd0 html_ent html_c1 nosink 60 rex_m1 = None /\
+  (let r := drive_flat html_flavour true html_table html_simd0 html_ent html_c1 nosink 200 [] [rex_text]
+              (mkmach (init_cfg (HRawData KScriptData) rex_last false) [] [] 0%N) [] in
+   snd r = [SSuspend; SSuspend] /\
+   exists cfF, wrun 200 rex_env (winit WScriptData rex_last) (preprocess rex_text) = Some cfF /\
+               flat_i (mout (fst r)) = flat_s (wout cfF) /\ List.length (flat_s (wout cfF)) = 54%nat).
+Proof. exact refine_example. Qed.
+Print Assumptions C01_refine_example.
